@@ -48,6 +48,9 @@ def main(argv=None) -> int:
         from . import memo
 
         memo.check(chk, pid)
+        from . import diag
+
+        diag.check(chk, pid)
         if a.tier == "thorough" and hasattr(mod, "run_thorough"):
             mod.run_thorough(chk)
     except AnalysisError as e:
